@@ -418,30 +418,31 @@ def run(ctx):
     model = ctx.model("binopslot")
     specs, plans = [], []
     if quick:
-        oplist = [("add", [0, 2, 3], range(8), [0, 1, 2, 3], 3)]
+        oplist = [("add", [(0, [0, 1, 2, 3]), (0, [4, 5, 6, 7]), (3, [0, 1, 2, 3]), (3, [4, 5, 6, 7])], [0, 2, 3], 3)]
     else:
-        oplist = [("add", list(range(8)), range(8), list(range(8)), 8),
-                  ("sub", [0, 3, 6], range(8), [0, 1, 2, 3], 5),
-                  ("matmul", [1, 2], range(8), [0, 1, 2, 3], 5),
-                  ("or", [3, 7], range(8), [0, 2, 5], 5),
-                  ("floordiv", [0, 5], range(8), [0, 1, 2, 3], 5)]
-    for opname, bs, tdefs, cdefs, ns in oplist:
+        allt = [[0, 1, 2, 3], [4, 5, 6, 7]]
+        oplist = [("add", [(b, g) for b in range(8) for g in allt], list(range(8)), 8),
+                  ("sub", [(b, g) for b in (0, 3, 6) for g in allt], [0, 1, 2, 3], 5),
+                  ("matmul", [(b, g) for b in (1, 2) for g in allt], [0, 1, 2, 3], 5),
+                  ("or", [(b, g) for b in (3, 7) for g in allt], [0, 2, 5], 5),
+                  ("floordiv", [(b, g) for b in (0, 5) for g in allt], [0, 1, 2, 3], 5)]
+    for opname, bgs, cdefs, ns in oplist:
         mods = []
-        for b in bs:
-            name = "c28_%s_%d" % (opname, b)
+        for b, tdefs in bgs:
+            name = "c28_%s_%d_%d" % (opname, b, tdefs[0])
             specs.append(dict(name=name, source=binop_module(opname, b, tdefs, cdefs), workdir=ctx.workdir))
             mods.append((name, b, tdefs, cdefs))
         plans.append((opname, mods, ns))
     if quick:
         tl = [(t, to) for t in (0, 1, 4, 5, 6, 9, 13, 20, 21, 36, 37, 63) for to in (0, 1)]
-        rc_specs, rc_plan = run_richcmp(ctx, model, 2, tl, 1, 3)
+        rc_specs, rc_plan = run_richcmp(ctx, model, 4, tl, 1, 3)
     else:
         tl = [(t, to) for t in range(64) for to in (0, 1)]
-        rc_specs, rc_plan = run_richcmp(ctx, model, 8, tl, 3, 4)
+        rc_specs, rc_plan = run_richcmp(ctx, model, 16, tl, 3, 4)
     specs += rc_specs
     if not quick:
         specs.append(dict(name="c28_capi_add_3", source=binop_module("add", 3, range(4), [0, 1, 2, 3], capi=True), workdir=ctx.workdir))
-    built = cybuild.build_many(specs, jobs=6 if quick else 10)
+    built = cybuild.build_many(specs, jobs=8 if quick else 12)
     for (so, err), sp in zip(built, specs):
         if err is not None:
             ctx.corr_break("build " + sp["name"], sp["name"], str(err)[:1500], "module builds")
